@@ -223,7 +223,7 @@ def case_fn(ctx, case):
         elif act == 'DATA':
             k.send(cc.expand(('d', arg), [1, 31, 4096, 4097, 70000, 300][arg % 6]))
         elif act == 'JUNK':
-            k.send([b'PONG\n', b'\n', b'\r\n', b'HELLO\n', b'REGISTER\n', b'CONNECT a\n', b'CONNECT a b c\n', b'PING\n', b'register x\n'][arg % 9])
+            k.send([b'PONG\n', b'\n', b'\r\n', b'HELLO\n', b'REGISTER\n', b'CONNECT a\n', b'CONNECT a b c\n', b'PING\n', b'register x\n', b'    \n', b'\t\n', b' \t \r\n', b' PONG\n'][arg % 13])
         elif act == 'LONGLINE':
             n = [4096, 65536, 200000, 5000][arg % 4]
             k.send((b'REGISTER ' if arg & 4 else b'') + b'a' * n + (b'\n' if arg & 8 else b''))
